@@ -26,7 +26,12 @@ TIMEOUT = {"quick": 900, "thorough": 3600}
 SCTP_CLONES = {"quick": ['rand3', 'enum0'], "thorough": ['rand10', 'rand11', 'enum0', 'concurrent3']}
 FAULTS = ["none", "close", "reset", "dpr", "reconnect", "second_conn", "second_conn_before", "second_conn_then_close",
           "second_conn_then_dpr",
-          "dpr_then_late_dwa", "second_conn_before_then_dpr", "dpr_when_idle_timer_due"]
+          "dpr_then_late_dwa", "second_conn_before_then_dpr", "dpr_when_idle_timer_due", "foreign_same_ids"]
+# how a request gets its FIRST answer: through Application.send_answer (what the statement is about); "direct" - the
+# application hands the answer to Node.send_message with the connection itself (documented for that purpose);
+# "raise" - the handler fails after putting the request aside and the node answers 5012 for it.  In the last two
+# the request has been answered, so every later submission through send_answer is a second answer
+FIRST_VIA = ["send_answer", "direct", "raise"]
 
 
 def shards(tier, seed):
@@ -44,16 +49,18 @@ def shards(tier, seed):
 
 class Case:
     def __init__(self, run, npeers, placement, order, fault, fault_pos, fault_target, resubmit=False,
-                 concurrent=False):
+                 concurrent=False, first_via="send_answer"):
         """placement: list of (peer index, hbh) per request; order: permutation of request indices."""
         from vf.simnet.world import World, REALM
         from vf.simnet import msgs as M
         self.M, self.REALM = M, REALM
         self.run = run
         self.spec = dict(npeers=npeers, placement=[list(x) for x in placement], order=list(order), fault=fault,
-                         fault_pos=fault_pos, fault_target=fault_target, resubmit=resubmit, concurrent=concurrent)
+                         fault_pos=fault_pos, fault_target=fault_target, resubmit=resubmit, concurrent=concurrent,
+                         first_via=first_via)
         peers = [{"name": f"peer{i + 1}.verif.example"} for i in range(npeers)]
-        self.w = World(dict(peers=peers, apps=[{"tag": "a4", "id": 4, "behaviour": "defer",
+        self.w = World(dict(peers=peers, apps=[{"tag": "a4", "id": 4,
+                                                 "behaviour": "keep_raise" if first_via == "raise" else "defer",
                                                  "peers": [p["name"] for p in peers]}],
                             node={"idle_timeout": 500 if fault in ("dpr_then_late_dwa", "dpr_when_idle_timer_due") else 10 ** 6,
                                   "dwa_timeout": 10 ** 6}))
@@ -138,6 +145,16 @@ class Case:
             h.settle()
             p.send(M.dpr(name, self.REALM, hbh=900, e2e=900))
             p.dpr_exchanged = True
+        elif f == "foreign_same_ids":
+            # another connection happens to use the identifiers of a request pending on the target's connection
+            # (identifiers are unique per connection only): its watchdog request is answered, nothing else changes
+            others = [gens[-1] for k, gens in enumerate(self.socks) if k != t and not gens[-1].closed]
+            mine = [ids for ids, S in zip(self.req_ids, self.req_sock) if S is p]
+            if others and mine:
+                u = others[0]
+                k = next(i for i, gens in enumerate(self.socks) if gens[-1] is u)
+                u.send(M.dwr(f"peer{k + 1}.verif.example", self.REALM, hbh=mine[0][0], e2e=mine[0][1]))
+                self.run.cov["foreign_same_ids_sent"] = self.run.cov.get("foreign_same_ids_sent", 0) + 1
         elif f == "second_conn_then_close":
             # the peer stays connected through a second connection while the one that carried the requests goes
             self.socks[t].append(self.connect(t, gen=len(self.socks[t])))
@@ -179,8 +196,14 @@ class Case:
             msgs = list(self.app.deferred)
             # index requests by e2e (delivery order == arrival order, but be explicit)
             by_e2e = {m.header.end_to_end_identifier: m for m in msgs}
+            for q in self.all_peers():
+                q.drain()           # answers the node has sent already (handler failures) are not submissions
             seen = {id(q): len(q.frames) for q in self.all_peers()}
             submitted = set()
+            if sp["first_via"] == "raise":
+                # the node has answered each of them already (handler failure)
+                submitted = set(range(len(sp["placement"])))
+                self.run.cov["first_answer_by_node"] = self.run.cov.get("first_answer_by_node", 0) + len(submitted)
             steps = list(sp["order"])
             if sp["concurrent"]:
                 self.do_fault()
@@ -194,6 +217,11 @@ class Case:
                 if pos == len(steps):
                     break
                 ri = steps[pos]
+                if sp["first_via"] == "direct" and ri not in submitted and self.sock_ready(self.req_sock[ri]):
+                    self.direct_first(ri, by_e2e, seen)
+                    submitted.add(ri)
+                    self.submit_and_judge(ri, by_e2e, seen, first=False)
+                    continue
                 if sp["resubmit"] == "overlap" and ri not in submitted:
                     self.submit_overlapping(ri, by_e2e, seen)
                     submitted.add(ri)
@@ -205,6 +233,23 @@ class Case:
                     self.submit_and_judge(ri, by_e2e, seen, first=False)
         finally:
             w.teardown()
+
+    def direct_first(self, ri, by_e2e, seen):
+        """First answer handed to the node together with the connection (Node.send_message)."""
+        h = self.h
+        hbh, e2e = self.req_ids[ri]
+        S = self.req_sock[ri]
+        conn = h.conn_of(S)
+        ans = self.app.build_answer(by_e2e[e2e], 2001)
+        self.w.node.send_message(conn, ans)
+        h.settle()
+        self.run.cov["first_answer_direct"] = self.run.cov.get("first_answer_direct", 0) + 1
+        for q in self.all_peers():
+            q.drain()
+            new = q.frames[seen.get(id(q), 0):]
+            seen[id(q)] = len(q.frames)
+            if q is not S and any(not f.is_request and f.h.code == 272 for f in new):
+                self.witness("answer.sent_on_wrong_connection.direct", {"request": ri})
 
     def submit_and_judge(self, ri, by_e2e, seen, first):
         h = self.h
@@ -448,8 +493,11 @@ def run_shard(spec):
                                         continue
                                     if fault != "none" and nreq >= 3 and (i // spec["parts"]) % 3:
                                         continue   # sample the largest grids
+                                    j = i // spec["parts"]
+                                    via = FIRST_VIA[(j // 4) % 3] if (fault in ("none", "foreign_same_ids", "dpr", "second_conn")) else "send_answer"
                                     run.one(npeers, pl, order, fault, pos, tgt,
-                                            resubmit={0: True, 1: "overlap"}.get((i // spec["parts"]) % 4, False))
+                                            resubmit={0: True, 1: "overlap"}.get(j % 4, False) if via == "send_answer" else True,
+                                            first_via=via)
     elif spec["kind"] == "random":
         for _ in range(spec["n"]):
             npeers = rng.choice([1, 2, 3])
@@ -465,8 +513,11 @@ def run_shard(spec):
             nreq = len(pl)
             order = list(range(nreq))
             rng.shuffle(order)
-            run.one(npeers, pl, order, rng.choice(FAULTS), rng.randrange(nreq + 1), rng.randrange(npeers),
-                    resubmit=rng.choice([False, False, False, False, True, True, "overlap"]))
+            via = rng.choice(["send_answer"] * 3 + ["direct", "raise"])
+            run.one(npeers, pl, order, rng.choice(FAULTS + ["foreign_same_ids"]), rng.randrange(nreq + 1),
+                    rng.randrange(npeers),
+                    resubmit=rng.choice([False, False, False, False, True, True, "overlap"]) if via == "send_answer" else True,
+                    first_via=via)
     else:
         for _ in range(spec["n"]):
             npeers = rng.choice([2, 3])
@@ -481,7 +532,8 @@ def run_shard(spec):
 def replay(obj):
     run = Run()
     run.one(obj["npeers"], [tuple(x) for x in obj["placement"]], obj["order"], obj["fault"], obj["fault_pos"],
-            obj["fault_target"], resubmit=obj.get("resubmit", False), concurrent=obj.get("concurrent", False))
+            obj["fault_target"], resubmit=obj.get("resubmit", False), concurrent=obj.get("concurrent", False),
+            first_via=obj.get("first_via", "send_answer"))
     return run.result()
 
 
